@@ -184,3 +184,34 @@ fn x_utils() {
     st.sample("palette indices 250..=261 with duplicate colours, transparent=Some(7), failure=3".into());
     st.finish();
 }
+
+/// Bounded stand-in for the contract of CelsData::{new, add_cel, cel, frame_cels} (the Kani harness k_cels_table
+/// does not finish under CBMC): its body is run natively on every draw of an enumerated input set. This is also
+/// the executed check behind the TRUSTED Verus shim of frame_cels (yields the stored cels of a frame in
+/// increasing layer order, each with its layer id).
+#[test]
+fn x_cels_table() {
+    use crate::verif_spec::src::VecSrc;
+    let mut st = Stats::new("x_cels_table", "two insertions into a 2-frame table: frame ids in {0,1,2,3,255,256,65535}, layer indices 0..=3, both insertion orders (784 cases)");
+    let frames = [0u16, 1, 2, 3, 255, 256, 65535];
+    for &f1 in &frames {
+        for l1 in 0u16..=3 {
+            for &f2 in &frames {
+                for l2 in 0u16..=3 {
+                    st.case(&(f1, l1, f2, l2), f1 < 2 || f2 < 2);
+                    let draws = vec![f1.to_le_bytes().to_vec(), l1.to_le_bytes().to_vec(), f2.to_le_bytes().to_vec(), l2.to_le_bytes().to_vec()];
+                    let r = std::panic::catch_unwind(|| {
+                        let mut s = VecSrc { draws, pos: 0 };
+                        crate::cel::verif_overlay::k_cels_table(&mut s);
+                    });
+                    if let Err(e) = r {
+                        let msg = e.downcast_ref::<String>().cloned().or_else(|| e.downcast_ref::<&str>().map(|s| s.to_string())).unwrap_or_default();
+                        st.fail(format!("CelsData table contract violated for insertions (frame {}, layer {}), (frame {}, layer {}): {}", f1, l1, f2, l2, msg), None);
+                    }
+                }
+            }
+        }
+    }
+    st.sample("add (frame 1, layer 3) then (frame 1, layer 0): frame_cels(1) yields layer 0 then layer 3".into());
+    st.finish();
+}
